@@ -234,6 +234,19 @@ var scenarios = []scenario{
 		w.f.Get("/a/b{d: /[0-9]+/}/x", h)
 		return w
 	}},
+	{Name: "same-match-all-in-the-middle,different-captures", Build: func(n int) *world {
+		w := newWorld(planFor(n, func(t int) []reqSpec {
+			return []reqSpec{{"GET", fmt.Sprintf("/t/w%d/x%d/z", t, t), nil}}
+		}))
+		w.f.Get("/t/{m: **}/z", func(c flamego.Context) string {
+			sched.Point()
+			w.own(c)
+			w.note("params=%s", fmtParams(c.Params()))
+			return "m=" + c.Param("m")
+		})
+		w.f.Get("/t/{p}", func(c flamego.Context) string { return "other" })
+		return w
+	}},
 	{Name: "header-constrained", Build: func(n int) *world {
 		w := newWorld(planFor(n, func(t int) []reqSpec {
 			if t%2 == 0 {
